@@ -166,6 +166,13 @@ def flood(chk, prefixes, nper, clients, msgs):
             ep = "tcp://127.0.0.1:0" if (i + len(t)) % 2 else "ipc://$DIR/f%d.sock" % scen
             scripts.append({"scen": scen, "sock": t, "ops": [{"op": "bind", "name": "a", "ep": ep},
                                                              {"op": "mt_flood", "name": "a", "clients": rng.randint(2, clients), "msgs": rng.randint(msgs // 2, msgs), "seed": rng.randrange(1 << 30)}]})
+    # backlog: big messages written without pause, the application starts late and calls recv back to back from the main
+    # future of block_on - the receive loop is ready hundreds of times in a row (it never parks, the runtime's cooperative
+    # budget runs out in the middle of the fair queue's poll loop)
+    for t in ("PULL", "ROUTER", "SUB") if nper > 2 else ("PULL", "DEALER"):
+        scen += 1
+        scripts.append({"scen": scen, "sock": t, "tag": "backlog", "ops": [{"op": "bind", "name": "a", "ep": "tcp://127.0.0.1:0"},
+                                                       {"op": "mt_flood", "name": "a", "clients": 2, "msgs": 150 if nper > 2 else 100, "seed": rng.randrange(1 << 30), "backlog": True}]})
     inp = os.path.join(chk.wd, "flood.in"); out = os.path.join(chk.wd, "flood.trace")
     ipcdir = os.path.join(vlib.WORK, "ipc-flood-%d" % os.getpid())
     shutil.rmtree(ipcdir, ignore_errors=True); os.makedirs(ipcdir)
@@ -173,7 +180,13 @@ def flood(chk, prefixes, nper, clients, msgs):
     rc, o, dt = vlib.sh([vlib.ZV, "net", "--in", inp, "--out", out, "--dir", ipcdir], timeout=3000)
     shutil.rmtree(ipcdir, ignore_errors=True)
     if rc != 0:
-        chk.violation("%s/process-abort" % chk.pid, {"what": "the flood driver died", "tail": o[-300:]}, {"kind": "net", "script": scripts[0]})
+        done = sum(1 for r in (vlib.read_ndjson(out) if os.path.exists(out) else []) if r["ev"] == "end")
+        bad = scripts[done] if done < len(scripts) else scripts[-1]
+        if rc == 3:
+            chk.violation("C06/recv-never-returns-under-backlog", {"what": "a recv call on a socket with complete messages available neither returned nor let the runtime run anything else for 40 s (the task spins inside the library)",
+                                                                  "sock": bad["sock"], "scenario": bad["scen"], "tail": o[-200:]}, {"kind": "net", "script": bad})
+        else:
+            chk.violation("%s/process-abort" % chk.pid, {"what": "the flood driver died", "sock": bad["sock"], "tail": o[-300:]}, {"kind": "net", "script": bad})
         return
     rows = [r for r in vlib.read_ndjson(out) if r["ev"] in ("reset", "attach_ret", "peer_wrote", "recv_ret", "quiescent", "panic")]
     flt = out + ".flt"
